@@ -24,6 +24,14 @@
 //! under naive dictionary fingerprints (even multiplicities, anagrams, concatenations, splits).
 //! The rebuild decision itself (`MergedDictionary ==`) is compared with the model (`dfp`) and judged
 //! on pairs of different word sets (`fingerprint_streams`).
+//! URL kinds (`server_url_scenarios`, stream `server-url`, w24): 1–3 documents whose URLs are `file:///p`,
+//! `untitled:Untitled-n`, `untitled:/p` or opaque (`zqverif:…`, a URL with a host) on the real server; the
+//! command is taken from the code action the server offers; after every command: files written (the
+//! whole file-dictionary directory), the response, whether anything was published, then every document
+//! is checked again (didChange) and its verdicts compared with the model (`addfk` / `lintk` ops inside
+//! the `dio` line carry the two bits `scheme()=="untitled"` / `to_file_path().is_ok()` computed with the
+//! real `Url`) and judged (classes `c07-untitled-url-file-dict-add-ignored`,
+//! `c07-untitled-url-overwrites-file-dict`).
 //! The direct path (`run_history`) performs the handler's steps `load_dict → append_word → save_dict →
 //! update_document_from_file (= reload all dictionaries, rebuild the linter if the merged dictionary
 //! differs)` itself, in that order, with the same functions.
@@ -1681,6 +1689,389 @@ pub fn server_scenarios(sess: &mut Session, env: &Env, rt: &tokio::runtime::Runt
 }
 
 // ---------------------------------------------------------------------------------------------
+// server path, URL kinds (w24 s6): documents whose URL is not an ordinary `file:` URL
+// ---------------------------------------------------------------------------------------------
+//
+// `backend.rs` tests a document URL twice: `scheme() == "untitled"` (`load_file_dictionary` answers the
+// empty dictionary at once) and `to_file_path()` (`file_dict_name`, `update_document_from_file`). The four
+// combinations are the four `UKind`s; the two bits that go on the op line are computed HERE from the real
+// `Url` (not from the label), the labels are only what the generator aims at (monitored).
+
+#[derive(Clone, Copy, Debug, PartialEq)]
+enum UKind {
+    /// `file:///…/p<slot>.txt`
+    File,
+    /// `untitled:Untitled-<n>` — an unsaved VS Code buffer: no path
+    Untitled,
+    /// `untitled:/…/p<slot>.txt` — an unsaved buffer with an associated file name: `to_file_path` succeeds
+    UntitledPath,
+    /// `zqverif:opaque-<n>` / `zqverif://host/…` / `file://host/…`: neither
+    Opaque,
+    /// `zqverif:/…/p<slot>.txt` — not `file:`, not `untitled:`, but host-less with a path: the two tests
+    /// answer as for a `file:` URL (`to_file_path` does not look at the scheme)
+    SchemePath,
+}
+impl UKind {
+    fn label(self) -> &'static str {
+        match self { UKind::File => "file", UKind::Untitled => "untitled", UKind::UntitledPath => "untitled-with-path", UKind::Opaque => "opaque", UKind::SchemePath => "other-scheme-with-path" }
+    }
+    fn from_label(l: &str) -> Option<UKind> {
+        [UKind::File, UKind::Untitled, UKind::UntitledPath, UKind::Opaque, UKind::SchemePath].into_iter().find(|k| k.label() == l)
+    }
+    fn expect_bits(self) -> (bool, bool) {
+        match self { UKind::File | UKind::SchemePath => (false, true), UKind::Untitled => (true, false), UKind::UntitledPath => (true, true), UKind::Opaque => (false, false) }
+    }
+}
+#[derive(Clone, Debug)]
+struct UDoc {
+    kind: UKind,
+    /// documents of kind File / UntitledPath with the same slot have the same path (hence the same `file_dict_name`)
+    slot: usize,
+}
+/// 1–3 documents of any URL kind (same text: one line per probe word), 1–5 add commands; after every
+/// command every document is checked again (didChange with the same text)
+#[derive(Clone, Debug)]
+struct UrlScenario {
+    docs: Vec<UDoc>,
+    adds: Vec<SrvAdd>,
+    extra: Vec<String>,
+    /// the path of an `untitled:/…` document exists on disk (so `update_document_from_file` can read it)
+    on_disk: bool,
+}
+impl UrlScenario {
+    fn as_srv(&self) -> SrvScenario {
+        SrvScenario { docs: self.docs.len(), adds: self.adds.clone(), extra: self.extra.clone() }
+    }
+    fn to_json(&self) -> Value {
+        json!({"stream": "server-url", "never_added": self.extra, "untitled_path_exists_on_disk": self.on_disk,
+            "document_text": self.as_srv().text(),
+            "documents": self.docs.iter().map(|d| json!({"url_kind": d.kind.label(), "path_slot": d.slot})).collect::<Vec<_>>(),
+            "commands": self.adds.iter().map(|a| json!({"command": if a.file { "HarperAddToFileDict" } else { "HarperAddToUserDict" }, "doc": a.doc, "word": a.w})).collect::<Vec<_>>()})
+    }
+    fn from_json(v: &Value) -> Option<UrlScenario> {
+        let docs: Vec<UDoc> = v["documents"].as_array()?.iter().filter_map(|d| Some(UDoc { kind: UKind::from_label(d["url_kind"].as_str()?)?, slot: d["path_slot"].as_u64().unwrap_or(0) as usize })).collect();
+        if docs.is_empty() {
+            return None;
+        }
+        let n = docs.len();
+        let adds = v["commands"].as_array()?.iter().map(|c| SrvAdd { file: c["command"] == "HarperAddToFileDict", doc: (c["doc"].as_u64().unwrap_or(0) as usize).min(n - 1), w: c["word"].as_str().unwrap_or("").to_string() }).collect();
+        Some(UrlScenario { docs, adds, extra: v["never_added"].as_array().map(|a| a.iter().filter_map(|x| x.as_str().map(|s| s.to_string())).collect()).unwrap_or_default(), on_disk: v["untitled_path_exists_on_disk"].as_bool().unwrap_or(false) })
+    }
+    fn uri(&self, sdir: &Path, tag: usize, d: usize) -> String {
+        let doc = &self.docs[d];
+        let path = sdir.join(format!("p{}.txt", doc.slot));
+        match doc.kind {
+            UKind::File => crate::lsclient::file_url(&path),
+            UKind::UntitledPath => format!("untitled:{}", path.to_string_lossy()),
+            UKind::Untitled => format!("untitled:Untitled-{}-{}", tag, d),
+            UKind::SchemePath => format!("zqverif:{}", path.to_string_lossy()),
+            UKind::Opaque => match (tag + d) % 3 {
+                0 => format!("zqverif:opaque-{}-{}", tag, d),
+                1 => format!("zqverif://host{}x{}/p{}.txt", tag, d, doc.slot),
+                _ => format!("file://zqhost{}x{}{}", tag, d, path.to_string_lossy()),
+            },
+        }
+    }
+}
+
+const URL_FINDING_IGNORED: &str = "c07-untitled-url-file-dict-add-ignored";
+const URL_FINDING_OVERWRITE: &str = "c07-untitled-url-overwrites-file-dict";
+
+fn url_commands(cx: &SrvCtx, ls: &mut LsSession, sdir: &Path, sc: &UrlScenario, tag: usize) -> Result<(SrvOut, Vec<(&'static str, bool)>), crate::lsclient::LsError> {
+    use crate::lsclient::{did_change, did_open};
+    let mut out = SrvOut::default();
+    let mut monitors: Vec<(&'static str, bool)> = vec![];
+    let cfg = srv_cfg(sdir);
+    let srv = sc.as_srv();
+    let text = srv.text();
+    let probes = srv.probes();
+    std::fs::create_dir_all(sdir).unwrap();
+    let fdir = sdir.join("file_dictionaries");
+    let nd = sc.docs.len();
+    let uris: Vec<String> = (0..nd).map(|d| sc.uri(sdir, tag, d)).collect();
+    // the two tests of backend.rs, made with the real `Url`
+    let kinds: Vec<(bool, bool)> = uris.iter().map(|u| { let p = Url::parse(u).unwrap(); (p.scheme() == "untitled", p.to_file_path().is_ok()) }).collect();
+    for d in 0..nd {
+        monitors.push(("URL kinds: scheme()==\"untitled\" / to_file_path() answer as the generator expects (file:///p, zq:/p, untitled:Untitled-1, untitled:/p, zq:opaque, zq://host/p, file://host/p)", kinds[d] == sc.docs[d].kind.expect_bits()));
+    }
+    let is_opaque = |d: usize| !kinds[d].0 && !kinds[d].1;
+    // the model's abstract dictionary name: the path slot when the URL has a path, else a number nothing else uses
+    let name_of = |d: usize| if kinds[d].1 { sc.docs[d].slot } else { 100 + d };
+    let dict_path = |d: usize| -> Option<PathBuf> { if kinds[d].1 { file_dict_name(&Url::parse(&uris[d]).unwrap()).ok().map(|n| fdir.join(n)) } else { None } };
+    {
+        // documents with the same slot share the dictionary file, different slots do not
+        let mut ok = true;
+        for a in 0..nd { for b in 0..nd { if let (Some(pa), Some(pb)) = (dict_path(a), dict_path(b)) { ok &= (pa == pb) == (sc.docs[a].slot == sc.docs[b].slot); } } }
+        monitors.push(("URL kinds: file_dict_name is the same for file:///p and untitled:/p, different for different paths", ok));
+    }
+    for d in 0..nd {
+        if kinds[d].1 && (sc.docs[d].kind != UKind::UntitledPath || sc.on_disk) {
+            std::fs::write(sdir.join(format!("p{}.txt", sc.docs[d].slot)), &text).unwrap();
+        }
+    }
+    let mut chars: BTreeSet<char> = BTreeSet::new();
+    let mut keys: BTreeSet<String> = BTreeSet::new();
+    for p in &probes {
+        chars.extend(p.chars());
+        keys.insert(lownorm_s(p));
+        keys.insert(lownorm(&cs(p).to_lower()));
+    }
+    chars.insert('\n');
+    let one_tok: Vec<bool> = probes.iter().map(|p| one_token(&Document::new(&template(p), &PlainEnglish, &FstDictionary::curated()), p.chars().count())).collect();
+    let bits = |published: &Value| -> String {
+        let mut b = vec!["A".to_string()];
+        for (i, _) in probes.iter().enumerate() {
+            if one_tok[i] {
+                b.push(if line_flagged(published, i) { "0" } else { "1" }.into());
+            }
+        }
+        b.join(" ")
+    };
+    let kept: Vec<String> = probes.iter().enumerate().filter(|(i, _)| one_tok[*i]).map(|(_, p)| p.clone()).collect();
+    let kbits = |d: usize| format!("{}{}", kinds[d].0 as u8, kinds[d].1 as u8);
+    let mut op_txt: Vec<String> = vec![];
+    let mut res_txt: Vec<String> = vec![];
+    let count_files = || std::fs::read_dir(&fdir).map(|r| r.count()).unwrap_or(0);
+    let mut version = 1i64;
+
+    for d in 0..nd {
+        ls.notify("textDocument/didOpen", did_open(&uris[d], "plaintext", &text))?;
+        ls.quiesce(&cfg)?;
+        match ls.last_publication(&uris[d]).cloned() {
+            Some(p) => {
+                op_txt.push(format!("lintk , {} , {} , {}", kbits(d), name_of(d), list_tokens_s(&kept)).trim_end().to_string());
+                res_txt.push(bits(&p));
+                out.counts.push(format!("url:didOpen {} document ({} diagnostics)", sc.docs[d].kind.label(), if p.as_array().is_some_and(|a| a.is_empty()) { "no" } else { "some" }));
+            }
+            None => out.fails.push(("server-no-publication".into(), format!("didOpen of document {} ({}) published nothing", d, uris[d]))),
+        }
+    }
+    // what was asked of each dictionary: (word, command index, URL of the command's document was `untitled:`)
+    let mut user = Ledger::default();
+    let mut slot_adds: BTreeMap<usize, Vec<(String, usize, bool)>> = BTreeMap::new();
+    for (i, a) in sc.adds.iter().enumerate() {
+        let idx = i + 1;
+        let uri = uris[a.doc].clone();
+        let cmd = if a.file { "HarperAddToFileDict" } else { "HarperAddToUserDict" };
+        let n_before = ls.publications(&uri).len();
+        let last_before = ls.last_publication(&uri).cloned();
+        let files_before = count_files();
+        let klabel = sc.docs[a.doc].kind.label();
+        // the command as the client gets it: the code action the server offers on the reported word
+        // (offered for every document it could open, whatever the URL); built by hand when there is none
+        // (the word is not reported any more, or the document could never be opened)
+        let line = probes.iter().position(|q| *q == a.w).unwrap();
+        let ca = ls.request_sync("textDocument/codeAction", json!({"textDocument": {"uri": uri}, "range": {"start": {"line": line, "character": TEMPLATE_AT}, "end": {"line": line, "character": TEMPLATE_AT + 1}}, "context": {"diagnostics": []}}), &cfg)?;
+        let offered = ca["result"].as_array().and_then(|acts| acts.iter().find(|x| x["command"] == cmd && x["arguments"].is_array()).cloned());
+        let args = match &offered {
+            Some(x) => { out.counts.push(format!("url:{} taken from the code action offered for a {} document", cmd, klabel)); x["arguments"].clone() }
+            None => { out.counts.push(format!("url:{} built by hand (no code action: {} document)", cmd, klabel)); json!([a.w, uri]) }
+        };
+        if offered.is_some() && args != json!([a.w, uri]) {
+            out.fails.push(("code-action-arguments".into(), format!("the code action for `{}` in {} carries the arguments {} (expected the word and the document URL)", a.w, uri, args)));
+        }
+        let resp = ls.request_sync("workspace/executeCommand", json!({"command": cmd, "arguments": args}), &cfg)?;
+        ls.quiesce(&cfg)?;
+        let published = ls.publications(&uri).len() > n_before;
+        out.counts.push(format!("url:{} on a {} document: {}", cmd, klabel, if !published { "nothing published" } else if ls.last_publication(&uri).cloned() == last_before { "the same diagnostics published again" } else { "new diagnostics published" }));
+        // the client is never told: the response is `null` whatever happened
+        out.o_cases += 1;
+        if resp.get("error").is_some() || !resp["result"].is_null() {
+            out.counts.push(format!("url:{} on a {} document answered {}", cmd, klabel, trunc(&resp.to_string(), 120)));
+        } else {
+            out.counts.push(format!("url:{} on a {} document answered null", cmd, klabel));
+        }
+        if a.file {
+            let dp = dict_path(a.doc);
+            let order: Vec<Vec<char>> = dp.as_ref().map(|p| std::fs::read_to_string(p).unwrap_or_default().lines().map(cs).collect()).unwrap_or_default();
+            for o in &order {
+                chars.extend(o.iter());
+            }
+            let n_files = count_files();
+            op_txt.push(format!("addfk , {} , {} , {} , {}", kbits(a.doc), name_of(a.doc), chars_field(&cs(&a.w)), list_tokens(&order)).trim_end().to_string());
+            let fd = match &dp { Some(p) => fd_tokens(cx.rt, p), None => "F absent L err".to_string() };
+            res_txt.push(format!("{} N {}", fd, n_files));
+            if kinds[a.doc].1 {
+                slot_adds.entry(sc.docs[a.doc].slot).or_default().push((a.w.clone(), idx, kinds[a.doc].0));
+            } else {
+                // O: a URL without a path: no file may appear anywhere
+                out.o_cases += 1;
+                if n_files != files_before {
+                    out.fails.push(("file-written-for-pathless-url".into(), format!("command #{} (HarperAddToFileDict `{}` on {}) changed the number of file dictionaries {} → {}", idx, a.w, uri, files_before, n_files)));
+                } else {
+                    out.counts.push(format!("url:HarperAddToFileDict on a {} document wrote no file", klabel));
+                }
+            }
+        } else {
+            let dpath = sdir.join("dictionary.txt");
+            let order: Vec<Vec<char>> = std::fs::read_to_string(&dpath).unwrap_or_default().lines().map(cs).collect();
+            for o in &order {
+                chars.extend(o.iter());
+            }
+            op_txt.push(format!("add , {} , {}", chars_field(&cs(&a.w)), list_tokens(&order)));
+            res_txt.push(fd_tokens(cx.rt, &dpath));
+            user.added.push((a.w.clone(), idx));
+        }
+        // every document is checked again
+        for d in 0..nd {
+            version += 1;
+            ls.notify("textDocument/didChange", did_change(&uris[d], version, &text))?;
+            ls.quiesce(&cfg)?;
+        }
+        for d in 0..nd {
+            let Some(p) = ls.last_publication(&uris[d]).cloned() else { continue };
+            op_txt.push(format!("lintk , {} , {} , {}", kbits(d), name_of(d), list_tokens_s(&kept)).trim_end().to_string());
+            res_txt.push(bits(&p));
+            // ---- O: the property on the real server, document `d`, every command so far ----
+            for (bi, b) in sc.adds.iter().enumerate().take(idx) {
+                let line = probes.iter().position(|q| *q == b.w).unwrap();
+                let flagged = line_flagged(&p, line);
+                out.o_cases += 1;
+                if is_opaque(d) {
+                    // `generate_file_dictionary` fails, the document is never parsed: nothing is ever reported
+                    if flagged { out.fails.push(("opaque-document-checked".into(), format!("document {} ({}) reports `{}` although its dictionary cannot be generated", d, uris[d], b.w))); } else { out.counts.push("url:opaque document: nothing is checked, nothing reported".into()); }
+                    continue;
+                }
+                // is the word in a dictionary this document reads? (a case variant counts, C06)
+                let same = |x: &str| x.to_lowercase() == b.w.to_lowercase();
+                let in_user = sc.adds.iter().take(idx).any(|c| !c.file && same(&c.w));
+                if !b.file {
+                    if !flagged { out.counts.push("url:user-dictionary word accepted".into()); continue; }
+                    let present = cx.load_or_empty(&sdir.join("dictionary.txt")).words_iter().any(|x| x == cs(&b.w).as_slice());
+                    let class = if present { class_flagged_present(&user, &b.w, Dialect::American, false) } else { user.class_lost(&b.w, bi + 1) };
+                    out.fails.push((class.into(), format!("after command #{}: `{}` (HarperAddToUserDict #{}) is reported in document {} ({})", idx, b.w, bi + 1, d, uris[d])));
+                    continue;
+                }
+                let src = kinds[b.doc];
+                let same_file = src.1 && kinds[d].1 && sc.docs[b.doc].slot == sc.docs[d].slot;
+                let own = b.doc == d || (same_file && !kinds[d].0);
+                if own {
+                    // the word was added for THIS document (or for another URL of the same path, whose dictionary this `file:` document reads)
+                    if !flagged { out.counts.push(format!("url:file-dictionary word accepted in its {} document", sc.docs[d].kind.label())); continue; }
+                    let overwritten = slot_adds.get(&sc.docs[d].slot).is_some_and(|v| v.iter().any(|(_, ci, unt)| *unt && *ci > bi + 1));
+                    let class = if kinds[d].0 && b.doc == d {
+                        URL_FINDING_IGNORED
+                    } else if src.1 && overwritten {
+                        URL_FINDING_OVERWRITE
+                    } else if in_user || FstDictionary::curated().contains_word(&cs(&b.w)) {
+                        "added-word-flagged"
+                    } else {
+                        let present = dict_path(d).is_some_and(|p| cx.load_or_empty(&p).words_iter().any(|x| x == cs(&b.w).as_slice()));
+                        if present { "added-word-flagged" } else { "word-lost" }
+                    };
+                    out.fails.push((class.into(), format!("after command #{}: `{}` (HarperAddToFileDict #{} on {}) is reported in document {} ({}) at its next check", idx, b.w, bi + 1, uris[b.doc], d, uris[d])));
+                } else {
+                    // another document: the word must stay reported, unless one of ITS dictionaries has it
+                    let also = in_user || sc.adds.iter().take(idx).any(|c| c.file && same(&c.w) && kinds[c.doc].1 && kinds[d].1 && !kinds[d].0 && sc.docs[c.doc].slot == sc.docs[d].slot);
+                    if also || FstDictionary::curated().contains_word(&cs(&b.w)) { continue; }
+                    if flagged { out.counts.push("url:file-dictionary word still reported in another document".into()); } else {
+                        out.fails.push(("file-word-leaks".into(), format!("after command #{}: `{}` was added to the file dictionary of document {} ({}) only, but document {} ({}) no longer reports it", idx, b.w, b.doc, uris[b.doc], d, uris[d])));
+                    }
+                }
+            }
+        }
+        // ---- O: never lost — every dictionary file reloads to the words added to it so far ----
+        for (slot, adds) in &slot_adds {
+            let Some(dp) = (0..nd).find(|d| kinds[*d].1 && sc.docs[*d].slot == *slot).and_then(|d| dict_path(d)) else { continue };
+            let actual: Vec<String> = cx.load_or_empty(&dp).words_iter().map(st).collect();
+            out.o_cases += 1;
+            let mut ok = true;
+            for (w, ci, _) in adds {
+                if !actual.contains(w) {
+                    ok = false;
+                    let overwritten = adds.iter().any(|(_, cj, unt)| *unt && cj > ci);
+                    let class = if overwritten { URL_FINDING_OVERWRITE } else { "word-lost" };
+                    out.fails.push((class.into(), format!("after command #{} the file dictionary of path slot {} no longer holds `{}` (HarperAddToFileDict #{}); it reloads to {:?}", idx, slot, w, ci, actual)));
+                }
+            }
+            for w in &actual {
+                if !adds.iter().any(|(x, _, _)| x == w) {
+                    ok = false;
+                    out.fails.push(("word-invented".into(), format!("after command #{} the file dictionary of path slot {} holds `{}`, which nobody added", idx, slot, w)));
+                }
+            }
+            if ok { out.counts.push("url:file dictionary reloads to the words added to it".into()); }
+        }
+    }
+    out.k = Some(build_dio_line(cx.env, 7000 + tag, &mut chars, &keys, Dialect::American, "absent", &op_txt, &res_txt));
+    Ok((out, monitors))
+}
+
+fn corpus_url() -> Vec<UrlScenario> {
+    let a = |file: bool, doc: usize, w: &str| SrvAdd { file, doc, w: w.to_string() };
+    let d = |kind: UKind, slot: usize| UDoc { kind, slot };
+    vec![
+        // the audit's case: HarperAddToFileDict on an unsaved VS Code buffer, next to an ordinary file
+        UrlScenario { docs: vec![d(UKind::Untitled, 0)], adds: vec![a(true, 0, "zqxv")], extra: vec!["jqvz".into()], on_disk: false },
+        UrlScenario { docs: vec![d(UKind::File, 0), d(UKind::Untitled, 1)], adds: vec![a(true, 1, "zqxv"), a(true, 0, "qxzv"), a(true, 1, "vkqz"), a(false, 1, "xqzk")], extra: vec!["jqvz".into()], on_disk: false },
+        // untitled:/path next to file:///path (same file_dict_name): the untitled add REPLACES the dictionary
+        UrlScenario { docs: vec![d(UKind::File, 0), d(UKind::UntitledPath, 0)], adds: vec![a(true, 0, "zqxv"), a(true, 0, "qxzv"), a(true, 1, "vkqz")], extra: vec![], on_disk: true },
+        UrlScenario { docs: vec![d(UKind::UntitledPath, 2)], adds: vec![a(true, 0, "zqxv"), a(true, 0, "qxzv")], extra: vec!["jqvz".into()], on_disk: false },
+        UrlScenario { docs: vec![d(UKind::UntitledPath, 0), d(UKind::File, 1)], adds: vec![a(true, 0, "zqxv"), a(true, 1, "qxzv"), a(false, 0, "vkqz")], extra: vec![], on_disk: true },
+        // a URL the server cannot turn into a path at all: the command returns before anything happens
+        UrlScenario { docs: vec![d(UKind::Opaque, 0), d(UKind::Opaque, 1), d(UKind::File, 0)], adds: vec![a(true, 0, "zqxv"), a(true, 1, "qxzv"), a(false, 0, "vkqz"), a(true, 2, "xqzk")], extra: vec!["jqvz".into()], on_disk: false },
+        UrlScenario { docs: vec![d(UKind::Untitled, 0), d(UKind::UntitledPath, 1), d(UKind::File, 1)], adds: vec![a(false, 0, "zqxv"), a(true, 2, "qxzv"), a(true, 1, "vkqz"), a(true, 0, "xqzk"), a(true, 2, "kvxq")], extra: vec![], on_disk: false },
+        // the three opaque forms (tag 7: zqverif://host/p, file://host/p, zqverif:opaque)
+        UrlScenario { docs: vec![d(UKind::Opaque, 0), d(UKind::Opaque, 1), d(UKind::Opaque, 0)], adds: vec![a(true, 0, "zqxv"), a(true, 1, "qxzv"), a(true, 2, "vkqz"), a(false, 1, "xqzk")], extra: vec![], on_disk: false },
+        // a scheme that is neither file nor untitled, host-less, with a path: behaves as a file: URL of that path
+        UrlScenario { docs: vec![d(UKind::SchemePath, 0), d(UKind::File, 0), d(UKind::Untitled, 0)], adds: vec![a(true, 0, "zqxv"), a(true, 1, "qxzv"), a(true, 2, "vkqz")], extra: vec!["jqvz".into()], on_disk: false },
+    ]
+}
+
+fn gen_url_scenario(rng: &mut Rng) -> UrlScenario {
+    let nd = rng.range(1, 3);
+    let kinds = [UKind::File, UKind::Untitled, UKind::UntitledPath, UKind::Untitled, UKind::File, UKind::Opaque, UKind::UntitledPath, UKind::SchemePath];
+    let docs: Vec<UDoc> = (0..nd).map(|_| UDoc { kind: *rng.pick(&kinds), slot: rng.below(2) }).collect();
+    let n = rng.range(1, 5);
+    let mut adds: Vec<SrvAdd> = vec![];
+    for _ in 0..n {
+        // plain nonsense words, pairwise different (the case / fingerprint collisions have their own scenarios)
+        let w = loop {
+            let w = format!("{}{}", rng.pick(&BASE[..8]), (b'a' + rng.below(26) as u8) as char);
+            if !adds.iter().any(|a: &SrvAdd| a.w == w) { break w; }
+        };
+        adds.push(SrvAdd { file: rng.chance(3, 4), doc: rng.below(nd), w });
+    }
+    UrlScenario { docs, adds, extra: vec![format!("jqvz{}", (b'a' + rng.below(26) as u8) as char)], on_disk: rng.chance(1, 2) }
+}
+
+/// URL-kind scenarios through the real `Backend` (one in-process server for all of them; every
+/// scenario has its own directory, dictionary paths and document URLs)
+fn server_url_scenarios(sess: &mut Session, env: &Env, rt: &tokio::runtime::Runtime, root: &Path, scenarios: &[UrlScenario]) {
+    use crate::lsclient::LsSession;
+    let cx = SrvCtx { env, rt };
+    let boot_cfg = srv_cfg(&root.join("boot"));
+    let start = |sess: &mut Session| -> Option<LsSession> {
+        let r = LsSession::start().and_then(|mut ls| { ls.max_wait = std::time::Duration::from_secs(20); ls.initialize(&boot_cfg).map(|_| ls) });
+        match r {
+            Ok(ls) => Some(ls),
+            Err(e) => { sess.monitor("the in-process language server answered before its deadline", false); sess.count(&format!("url:start failed: {}", e)); None }
+        }
+    };
+    let Some(mut ls) = start(sess) else { return };
+    for (i, sc) in scenarios.iter().enumerate() {
+        let sdir = root.join(format!("u{}", i));
+        match url_commands(&cx, &mut ls, &sdir, sc, i) {
+            Ok((o, mons)) => {
+                sess.monitor("the in-process language server answered before its deadline", true);
+                sess.count("url:scenario");
+                for (m, h) in mons { sess.monitor(m, h); }
+                for _ in 0..o.o_cases { sess.o(); }
+                for c in o.counts { sess.count(&c); }
+                if let Some((op, imp)) = o.k { sess.k(&op, &imp); sess.nontrivial(&op); }
+                for (c, d) in o.fails { sess.fail(&c, d, sc.to_json(), None); }
+            }
+            Err(e) => {
+                sess.monitor("the in-process language server answered before its deadline", false);
+                sess.count(&format!("url:error {}", trunc(&e.to_string(), 80)));
+                match start(sess) { Some(n) => ls = n, None => return }
+            }
+        }
+    }
+    let _ = ls.shutdown(&boot_cfg);
+}
+
+// ---------------------------------------------------------------------------------------------
 
 fn merge(sess: &mut Session, o: Outcome, origin: &str) {
     sess.count(&format!("origin:{}", origin));
@@ -1742,6 +2133,10 @@ pub fn run(ctx: &Ctx) {
             if let Some(sc) = SrvScenario::from_json(&v) {
                 server_scenarios(&mut sess, &env, &rt, &root.join("srv"), &[sc], v.get("hand_edit").is_some());
             }
+        } else if v["stream"] == "server-url" {
+            if let Some(sc) = UrlScenario::from_json(&v) {
+                server_url_scenarios(&mut sess, &env, &rt, &root.join("srvurl"), &[sc]);
+            }
         } else if v["stream"] == "fingerprint" {
             let l = |x: &Value| x.as_array().map(|a| a.iter().filter_map(|w| w.as_str().map(|s| s.to_string())).collect::<Vec<_>>()).unwrap_or_default();
             for _ in 0..64 {
@@ -1781,6 +2176,17 @@ pub fn run(ctx: &Ctx) {
             scs.push(gen_srv_scenario(&mut rng));
         }
         server_scenarios(&mut sess, &env, &rt, &root.join("srv"), &scs, true);
+    }
+    // ---- 1b'. documents whose URL is not an ordinary file: URL (untitled:, untitled:/path, opaque) ----------
+    {
+        let mut scs = corpus_url();
+        let n = if thorough { 60 } else { 9 };
+        // a generator of its own (derived from the seed), so that the older streams keep their sequences
+        let mut urng = Rng::new(ctx.seed.wrapping_mul(0x9E3779B97F4A7C15) ^ 0x5706);
+        for _ in 0..n {
+            scs.push(gen_url_scenario(&mut urng));
+        }
+        server_url_scenarios(&mut sess, &env, &rt, &root.join("srvurl"), &scs);
     }
     // ---- 1c. the rebuild decision: real MergedDictionary equality ---------------------------------------
     fingerprint_streams(&mut sess, &mut rng, thorough);
@@ -1998,10 +2404,11 @@ pub fn run(ctx: &Ctx) {
     let extra = json!({
         "exhaustive_scope": "load_dict on all files of ≤5 (thorough ≤6) characters over {a A LF CR space} and every byte prefix of all strings of ≤3 characters over {a A LF CR space é}; tokio BufWriter chunking for capacities 1–4 × ≤4 (thorough ≤5) pieces of 0–5 bytes; all histories of ≤4 (thorough ≤5) ops over {add zqxv, add Zqxv, add qxzv, restart, lint} + a final lint in another document; every byte offset (and before-open) of the save of one more add on 9 distinct dictionary files",
         "urls": URLS, "file_dict_names": env.names,
+        "server_url_kinds": "server_url_scenarios: 9 corpus + 9 (thorough 60) random scenarios of 1–3 documents with URLs file:///p, untitled:Untitled-n, untitled:/p (same path slot as a file: document or another), zqverif:/p, zqverif:opaque / zqverif://host/p / file://host/p; 1–5 HarperAddToFileDict / HarperAddToUserDict commands taken from the server's own code actions; after every command every document is re-checked (didChange); K ops addfk / lintk inside the dio line",
         "server_path": "server_scenarios: HarperAddToUserDict / HarperAddToFileDict through the in-process tower_lsp server (lsclient.rs): last publication vs a fresh DocumentState under the dictionaries on disk, other document, restart",
     });
     sess.finish(
-        "K: histories of add / addFile / restart / crash@byte / lint (+ JS import / lint / export-restart) run against the real load_dict, save_dict, append_word, MergedDictionary (curated+user+file) and SpellCheck in a temp dir, and against the Lean state machine on one `dio` line each: per op the file contents, what load_dict reloads, and the accept bit of every query word that is one Word token in `We saw _ today.`; the hash-table order of words_iter is handed to the model, which refuses it unless it is a permutation of its own dictionary. Crash = the file the real save_dict wrote, truncated by hand at the byte offset, then re-read by the real load_dict. Also: load_dict on arbitrary small files incl. torn UTF-8 (dload), the BufWriter chunking rule (dchunk), large dictionaries saved by the real save_dict in a child process under strace — sizes of the write syscalls, O_TRUNC, no fsync/rename — (dsave). O (real code only): after `add w` the word is not reported in the same and in another document, at once and at every later lint incl. after restarts; after every op the user dictionary file reloads (real load_dict) to exactly the words added so far (a crash before the open or after the last write may lose only the word being added); a file-dictionary word is accepted in its own document and changes no verdict in the three other documents; JS: imported words are accepted by Linter::lint at once and later, export_words returns them, a new Linter importing the export accepts them; all non-spelling lints (full curated LintGroup) of rule-test sentences containing the word are identical before and after the add, and the only spelling lints that disappear are on the word itself. Words: lower-case nonsense, Capitalised / UPPER / mixed case, case variants of each other, ' and ’ inside, non-ASCII (é ž ß ï ö İ É Ž Ø), words of another dialect (colour …), listed words, and (K only, never judged) words no token can be: trailing space, CR, embedded LF, empty, blank. Non-trivial = distinct K lines of histories, files containing a line break, multi-write saves.",
+        "K: histories of add / addFile / restart / crash@byte / lint (+ JS import / lint / export-restart) run against the real load_dict, save_dict, append_word, MergedDictionary (curated+user+file) and SpellCheck in a temp dir, and against the Lean state machine on one `dio` line each: per op the file contents, what load_dict reloads, and the accept bit of every query word that is one Word token in `We saw _ today.`; the hash-table order of words_iter is handed to the model, which refuses it unless it is a permutation of its own dictionary. Crash = the file the real save_dict wrote, truncated by hand at the byte offset, then re-read by the real load_dict. Also: load_dict on arbitrary small files incl. torn UTF-8 (dload), the BufWriter chunking rule (dchunk), large dictionaries saved by the real save_dict in a child process under strace — sizes of the write syscalls, O_TRUNC, no fsync/rename — (dsave). O (real code only): after `add w` the word is not reported in the same and in another document, at once and at every later lint incl. after restarts; after every op the user dictionary file reloads (real load_dict) to exactly the words added so far (a crash before the open or after the last write may lose only the word being added); a file-dictionary word is accepted in its own document and changes no verdict in the three other documents; JS: imported words are accepted by Linter::lint at once and later, export_words returns them, a new Linter importing the export accepts them; all non-spelling lints (full curated LintGroup) of rule-test sentences containing the word are identical before and after the add, and the only spelling lints that disappear are on the word itself. URL kinds (server-url stream, real Backend): HarperAddToFileDict on a document whose URL has no path writes no file anywhere; the word of every add command is accepted at the next check of every document that reads the dictionary it was added to — judged as the property demands also for untitled: documents, where it fails (two recorded classes); a file-dictionary word stays reported in documents of other paths; every dictionary file reloads to exactly the words added to it. Words: lower-case nonsense, Capitalised / UPPER / mixed case, case variants of each other, ' and ’ inside, non-ASCII (é ž ß ï ö İ É Ž Ø), words of another dialect (colour …), listed words, and (K only, never judged) words no token can be: trailing space, CR, embedded LF, empty, blank. Non-trivial = distinct K lines of histories, files containing a line break, multi-write saves.",
         true,
         extra,
     );
